@@ -143,9 +143,12 @@ def run(tier):
     stats.update({"fuzz_executions": execs, "fuzz_edges_covered": cov, "fuzz_features": ft, "fuzz_jobs": njobs, "seed_inputs": nseeds, "artifacts": len(arts)})
     v.count(execs)
     for k, a in arts:
-        r = subprocess.run([fz, a, "-close_fd_mask=1"], capture_output=True, env=env, text=True, errors="replace", timeout=120)
-        sig = common.san_summary(r.stderr)
         kind = os.path.basename(a).split("-")[0]
+        try:
+            r = subprocess.run([fz, a, "-close_fd_mask=1", "-timeout=10"], capture_output=True, env=env, text=True, errors="replace", timeout=60)
+        except subprocess.TimeoutExpired as te:  # the replay of a timeout artifact hangs as well: that is the finding
+            r = subprocess.CompletedProcess([], -999, "", "replay of the artifact did not terminate within 60 s")
+        sig = common.san_summary(r.stderr)
         if not sig:
             sig = "fuzz:" + kind + (":oracle-rc" if "FUZZ-ORACLE" in r.stderr else "")
         data = open(a, "rb").read()
@@ -206,12 +209,21 @@ def run(tier):
         files.append(p)
     menv = dict(os.environ, MSAN_OPTIONS="exitcode=97:abort_on_error=0", FUZZ_QUIET="1")
 
+    found = [0]
+
     def msan_batch(batch):
-        r = subprocess.run([ms] + batch, capture_output=True, env=menv, text=True, errors="replace", timeout=1800)
+        if found[0] >= 20:  # enough witnesses: on a tree where most inputs fail, bisecting every batch would take hours
+            return []
+        try:
+            # the replay binary arms a 10 s alarm per file (harness/fuzz_target.c), so a hanging input kills it with SIGALRM
+            r = subprocess.run([ms] + batch, capture_output=True, env=menv, text=True, errors="replace", timeout=max(180, 60 + 0.1 * len(batch)))
+        except subprocess.TimeoutExpired:
+            r = subprocess.CompletedProcess([], -999, "", "msan replay batch timed out")
         if r.returncode == 0:
             return []
         # bisect to single files
         if len(batch) == 1:
+            found[0] += 1
             return [(batch[0], r.returncode, r.stderr)]
         mid = len(batch) // 2
         return msan_batch(batch[:mid]) + msan_batch(batch[mid:])
